@@ -280,7 +280,7 @@ func solo(sc *scenario, i int) soloInfo {
 			h := st.shared.Hash()
 			if h != cur {
 				cur = h
-				if s.LocksHeld() > 0 || (prev >= 0 && jmespath.VerifAtomicPoints[prev]) {
+				if s.ExclusiveLocksHeld() > 0 || (prev >= 0 && jmespath.VerifAtomicPoints[prev]) {
 					info.locked++
 				} else if len(info.writes) < 3 {
 					if baseLines == nil {
@@ -392,7 +392,7 @@ func workC12(c *shardCtx) {
 		wf = 4
 	}
 	exprs := scenarioExprsW(c.thorough(), wf)
-	curated := 94 // (the constant-operand expressions that follow them are explored like generated ones)
+	curated := curatedCount // (the constant-operand expressions that follow them are explored like generated ones)
 	// the hand-written head of the list (literals in the AST, reordering functions)
 	nThreads := 2
 	maxPre := 0
